@@ -135,6 +135,11 @@ def _pair(ctx, A, B):
             ctx.valid()
             if vs is not None and abs(vs - a * v) > 2 * tol_of(A4, B4):
                 ctx.violation("scaling", "value does not scale linearly", observed=vs, expected=a * v, extra={"P1": A4, "P2": B4, "M": M})
+        # mixed representations: integer array against a fractional float array
+        Bh = aff(B, 0.5, 0.25)
+        for what, a1, a2, X, Y in (("int vs fractional float", np.array(A, dtype=int).reshape(-1, 2), farr(Bh), A, Bh),
+                                   ("fractional float vs int", farr(Bh), np.array(A, dtype=int).reshape(-1, 2), Bh, A)):
+            check_val(ctx, "value-mixed-dtype", ctx.call(persim.sliced_wasserstein, a1, a2, M=M), X, Y, M, what)
         # never exceeds twice the 1-Wasserstein distance
         w, _ = call_warn(ctx, persim.wasserstein, farr(A), farr(B))
         ctx.valid()
